@@ -97,6 +97,14 @@ func (p *Pool[K, V]) removeEntry(ent *entry[K, V]) {
 		return
 	}
 
+	// this runs from the expiration timer. if the timer fired but Take, Put or
+	// Close got the mutex first, they have already unlinked the entry (they
+	// leave closing the value to us). unlinking it a second time would corrupt
+	// the lists and their counts, and with them the capacity limits.
+	if !local.containsEntry(ent, (*entry[K, V]).localList) {
+		return
+	}
+
 	local.removeEntry(ent, (*entry[K, V]).localList)
 	p.order.removeEntry(ent, (*entry[K, V]).globalList)
 
